@@ -219,7 +219,7 @@ func genOp(r *Rng, hp *histPool, id int, decodes []int, tasks []Task) Task {
 			// a sink that fails at its 1st, 2nd or 3rd Write
 			return Task{ID: id, Call: "Encode", File: hp.files[r.Intn(len(hp.files))], Arch: arch, WriteFail: r.Range(1, 3)}
 		}
-		return Task{ID: id, Call: "Encode", File: hp.files[r.Intn(len(hp.files))], Arch: arch, Repeat: rep, Sink: []string{"", "", "", "buffer"}[r.Intn(4)]}
+		return Task{ID: id, Call: "Encode", File: hp.files[r.Intn(len(hp.files))], Arch: arch, Repeat: rep, Sink: []string{"", "", "", "buffer", "buffer+"}[r.Intn(5)]}
 	}
 }
 
